@@ -428,10 +428,10 @@ func returnsSuccess(fn *ssa.Function, r *ssa.Return) bool {
 		return false
 	}
 	last := r.Results[nres-1]
-	if isErrorType(fn.Signature.Results().At(nres-1).Type()) {
+	if isErrorType(fn.Signature.Results().At(nres - 1).Type()) {
 		return !certainlyNonNilError(last)
 	}
-	if b, ok := fn.Signature.Results().At(nres-1).Type().Underlying().(*types.Basic); ok && b.Kind() == types.Bool && nres == 1 {
+	if b, ok := fn.Signature.Results().At(nres - 1).Type().Underlying().(*types.Basic); ok && b.Kind() == types.Bool && nres == 1 {
 		k, ok := last.(*ssa.Const)
 		return ok && k.Value != nil && k.Value.Kind() == constant.Bool && constant.BoolVal(k.Value)
 	}
